@@ -363,7 +363,7 @@ var cmpOps = []string{"=", "=", "=", "<>", "!=", "<", "<=", ">", ">="}
 
 func (g *gen) pred(depth int) string {
 	r := g.r
-	if r.Chance(1, 90) { // outside the Coq grammar: counted as skipped by the tie
+	if !g.tx && r.Chance(1, 90) { // outside the Coq grammar: counted as skipped by the tie
 		return "LENGTH(" + g.s.Cols[g.anyCol()].Name + ") > 1"
 	}
 	k := r.Intn(14)
